@@ -13,13 +13,13 @@ Proof. intros H. inversion H as [|? b ? t _ F]; subst. exists b, t. split; [refl
 
 Lemma take_all_complete m ps k n : In (k, Scalar n) m -> key_ok k -> hasP k (take_all ps m).
 Proof.
-  intros H K. unfold take_all. eapply pfold_complete; [exact H|]. cbn [fst snd]. rewrite K. reflexivity.
+  intros H K. unfold Model.take_all. eapply pfold_complete; [exact H|]. cbn [fst snd]. rewrite K. reflexivity.
 Qed.
 
 Lemma direct_complete m ps p r k n : In (k, Scalar n) m -> p <> [] -> r <> [] -> split_dot k = p ++ r ->
   hasP (join_dot r) (direct (join_dot p) ps m).
 Proof.
-  intros H Np Nr Ek. unfold direct. eapply pfold_complete; [exact H|]. cbn [fst snd].
+  intros H Np Nr Ek. unfold Model.direct. eapply pfold_complete; [exact H|]. cbn [fst snd].
   assert (k = (join_dot p ++ [DOT]) ++ join_dot r) as E.
   { rewrite <- (join_split k), Ek, join_dot_app by assumption. rewrite <- app_assoc. reflexivity. }
   rewrite E at 1. rewrite prefixb_app. cbn [without_any]. f_equal. f_equal.
@@ -66,7 +66,7 @@ Proof.
       by (rewrite !app_length; cbn [length]; lia).
     destruct ((t1 ++ [s]) ++ a :: t3) as [|s0 rest0] eqn:Ep; [destruct t1; discriminate|].
     destruct f as [|f]; [lia|]. rewrite upd_cons. cbv zeta.
-    unfold direct. eapply hasP_mono; [intros x; apply pfold_mono|].
+    unfold Model.direct. eapply hasP_mono; [intros x; apply pfold_mono|].
     assert (m_get (join_dot ([] ++ t1 ++ [s])) m = Some (Mapping [(ANY, Mapping s')])) as G.
     { cbn [app]. rewrite <- Ets, join_split. apply in_m_get; [apply WS_nodup; exact W|exact Hin]. }
     rewrite <- app_assoc in Ep. cbn [app] in Ep.
@@ -82,7 +82,7 @@ Proof.
     destruct (app_split_any [] _ _ _ Eq Na) as [q' [-> Ee1]]. cbn [app] in F.
     apply F2_cons_inv in F. destruct F as [a [rest0 [-> Fq]]].
     destruct f as [|f]; [cbn [length] in L; lia|]. rewrite upd_cons. cbv zeta.
-    unfold direct. eapply hasP_mono; [intros x; apply pfold_mono|].
+    unfold Model.direct. eapply hasP_mono; [intros x; apply pfold_mono|].
     eapply hasP_mono; [intros x; apply ploop_mono; intros; apply upd_mono; assumption|].
     rewrite (in_m_get ANY (Mapping s') m (WS_nodup m W) Hin).
     eapply (IH f rest0 s' ps _ (Scalar v1)); [exact Ws'|inversion Wp; assumption|cbn [length] in Ln; lia|cbn [length] in L; lia|].
